@@ -594,3 +594,44 @@ Proof.
   intros. constructor; [simpl; intuition|]. constructor; [simpl; intuition|]. constructor; [simpl; tauto|constructor].
 Qed.
 
+
+(* ---------------------------------------------------------------- the loop reads fixed_edges as a SET *)
+Definition with_fixed (c : hc_cfg) (fx : list edge) : hc_cfg :=
+  {| vars := vars c; fixed := fx; black := black c; white := white c; max_indeg := max_indeg c;
+     tabu_len := tabu_len c; eps := eps c; max_iter := max_iter c; prior := prior c |}.
+
+Lemma mem_edge_same l l' e : (forall x, In x l <-> In x l') -> mem_edge e l = mem_edge e l'.
+Proof.
+  intros H. destruct (mem_edge e l') eqn:E.
+  - apply mem_edge_In. apply H. apply mem_edge_In. exact E.
+  - apply mem_edge_false. intros Hi. apply H in Hi. apply mem_edge_In in Hi. congruence.
+Qed.
+Lemma gen_ext {A B} (okf okf' : A -> bool) (f : A -> B) l :
+  (forall x, okf x = okf' x) -> gen okf f l = gen okf' f l.
+Proof. intros H. unfold gen. induction l as [|x t IH]; simpl; [reflexivity|]. rewrite H, IH. reflexivity. Qed.
+
+Lemma legal_ops_fixed_set s c fx g tabu : (forall x, In x (fixed c) <-> In x fx) ->
+  legal_ops s (with_fixed c fx) g tabu = legal_ops s c g tabu.
+Proof.
+  intros H. unfold legal_ops.
+  assert (Hm : forall e, mem_edge e fx = mem_edge e (fixed c)).
+  { intros e. apply mem_edge_same. intros z. symmetry. apply H. }
+  assert (E1 : adds s (with_fixed c fx) g tabu = adds s c g tabu) by reflexivity.
+  assert (E2 : dels s (with_fixed c fx) g tabu = dels s c g tabu).
+  { unfold dels. apply gen_ext. intros [x y]. unfold del_ok. simpl. rewrite Hm. reflexivity. }
+  assert (E3 : flips s (with_fixed c fx) g tabu = flips s c g tabu).
+  { unfold flips. apply gen_ext. intros [x y]. unfold flip_ok. simpl. rewrite Hm. reflexivity. }
+  rewrite E1, E2, E3. reflexivity.
+Qed.
+
+Lemma hc_loop_fixed_set s c fx : (forall x, In x (fixed c) <-> In x fx) ->
+  forall fuel g tabu, hc_loop s (with_fixed c fx) fuel g tabu = hc_loop s c fuel g tabu.
+Proof.
+  intros H. induction fuel as [|f IH]; intros g tabu; simpl; [reflexivity|].
+  rewrite (legal_ops_fixed_set s c fx g tabu H).
+  destruct (argmax_first (legal_ops s c g tabu)) as [[o d]|]; [|reflexivity].
+  destruct (Qcltb d (eps c)); [reflexivity|].
+  unfold tie_at. rewrite (legal_ops_fixed_set s c fx g tabu H).
+  change (tabu_push (with_fixed c fx) tabu (tabu_entry o)) with (tabu_push c tabu (tabu_entry o)).
+  rewrite IH. reflexivity.
+Qed.
